@@ -73,6 +73,12 @@ pub(crate) fn get_new_local_id() -> ActorId {
     ActorId::Local(ACTOR_ID_ALLOCATOR.fetch_add(1, std::sync::atomic::Ordering::AcqRel))
 }
 
+/// verif: restart local id allocation (between explored executions)
+#[cfg(feature = "verif_hooks")]
+pub(crate) fn verif_reset_ids() {
+    ACTOR_ID_ALLOCATOR.store(0, std::sync::atomic::Ordering::SeqCst);
+}
+
 #[cfg(test)]
 mod tests {
     use super::*;
